@@ -448,26 +448,29 @@ Proof.
     exact (qrel_trans _ _ _ Q1 IH).
 Qed.
 
+Lemma qrel_shield_proceed : forall st id last outer thr, qrel st (fst (fst (shield_proceed st id last outer thr))).
+Proof.
+  intros. unfold shield_proceed. destruct last as [m|]; [|apply qrel_refl].
+  pose proof (qrel_reschedule_delayed st m) as Q1.
+  destruct (reschedule_delayed st m) as [st1 ok]. cbn [fst] in Q1.
+  destruct ok; cbn [fst]; [exact Q1|]. eapply qrel_trans; [exact Q1|q2].
+Qed.
+
 Lemma qrel_shield_resume : forall st id wt last v outer, qrel st (fst (fst (shield_resume st id wt last v outer))).
 Proof.
   intros. unfold shield_resume.
-  assert (P : forall st0, qrel st0 (fst (fst
-     match cancel_msg_of v last with
-     | Some m => let '(st1, ok) := reschedule_delayed st0 m in
-                 if ok then (st1, FShield id ShRun None true :: outer, RDeliver None)
-                 else (set_g_abort st1 true, outer, RAbort)
-     | None => (st0, FShield id ShRun None true :: outer, RDeliver None)
-     end))).
-  { intros st0. destruct (cancel_msg_of v last) as [m|]; [|apply qrel_refl].
-    pose proof (qrel_reschedule_delayed st0 m) as Q1.
-    destruct (reschedule_delayed st0 m) as [st1 ok]. cbn [fst] in Q1.
-    destruct ok; cbn [fst]; [exact Q1|]. eapply qrel_trans; [exact Q1|q2]. }
-  destruct wt as [| |f o]; try apply P.
-  destruct (fut_done st f); [apply P|].
-  pose proof (qrel_mk_shield st f) as Q1. destruct (mk_shield st f) as [st1 o1]. cbn [fst] in Q1.
-  pose proof (qrel_yield_out outer (YFut o1) st1) as Q2.
-  destruct (yield_out outer (YFut o1) st1) as [[st2 k2] y2]. cbn [fst] in Q2 |- *.
-  exact (qrel_trans _ _ _ Q1 Q2).
+  destruct wt as [| |f o]; try apply qrel_shield_proceed.
+  assert (Q : qrel st (fst (fst (if fut_done st f
+      then shield_proceed st id (cancel_msg_of v last) outer (fut_exc st f)
+      else let '(st0, o0) := mk_shield st f in
+           let '(st1, outer', y') := yield_out outer (YFut o0) st0 in
+           (st1, FShield id (ShFut f o0) (cancel_msg_of v last) true :: outer', RYield y'))))).
+  { destruct (fut_done st f); [apply qrel_shield_proceed|].
+    pose proof (qrel_mk_shield st f) as Q1. destruct (mk_shield st f) as [st1 o1]. cbn [fst] in Q1.
+    pose proof (qrel_yield_out outer (YFut o1) st1) as Q2.
+    destruct (yield_out outer (YFut o1) st1) as [[st2 k2] y2]. cbn [fst] in Q2 |- *.
+    exact (qrel_trans _ _ _ Q1 Q2). }
+  destruct v as [[m| |]|]; first [exact Q|apply qrel_shield_proceed].
 Qed.
 
 Lemma qrel_resume_in : forall k v st, qrel st (fst (fst (resume_in k v st))).
@@ -517,6 +520,12 @@ Proof.
       pose proof (qrel_call_at st1 (time st1 + S d) (HSetRes f) ltac:(intros j Hj; discriminate)) as Q2.
       destruct (call_at st1 (time st1 + S d) (HSetRes f)) as [st2 h]. cbn [fst] in Q2.
       apply qinv_do_yield. eapply qrel_inv; eauto.
+  - destruct (new_fut (emit st (EvStart id (time st)))) as [st1 f] eqn:E1.
+    assert (I1 : qinv st1).
+    { eapply qinv_same2; [|exact H]. unfold new_fut in E1. inversion E1. sm2. }
+    pose proof (qrel_call_at st1 (time st1 + d) (HSetExc f) ltac:(intros j Hj; discriminate)) as Q2.
+    destruct (call_at st1 (time st1 + d) (HSetExc f)) as [st2 h]. cbn [fst] in Q2.
+    apply qinv_do_yield. eapply qrel_inv; eauto.
   - apply qinv_do_yield. eapply qinv_same2; [|exact H]; sm2.
   - apply qinv_do_yield. eapply qinv_same2; [|exact H]; sm2.
   - eapply qinv_same2; [|exact H]; sm2.
@@ -618,7 +627,8 @@ Proof.
       (destruct (f_st (get_fut st f));
        [exact (qrel_inv _ _ (qrel_fut_finish st outer FRes) H)
        |exact (qrel_inv _ _ (qrel_fut_finish st outer FRes) H)
-       |exact (qrel_inv _ _ (qrel_fut_finish st outer (FCanc None)) H)]).
+       |exact (qrel_inv _ _ (qrel_fut_finish st outer (FCanc None)) H)
+       |exact (qrel_inv _ _ (qrel_fut_finish st outer FExc) H)]).
   - destruct (fut_done st inner); [exact H|]. keep H.
 Qed.
 
@@ -634,6 +644,7 @@ Proof.
   - apply qinv_run_cb; exact H0.
   - destruct (f_st (get_fut (set_ready st rd) f)); try exact H0;
       exact (qrel_inv _ _ (qrel_fut_finish _ f FRes) H0).
+  - exact (qrel_inv _ _ (qrel_fut_finish _ f FExc) H0).
   - exact (qrel_inv _ _ (qrel_scope_cancel _ s) H0).
   - apply (qrel_inv _ _ (qrel_deliver (set_ready st rd) s (Hh s Ek)) H0).
   - destruct (task_done (set_ready st rd)); [exact H0|].
